@@ -16,11 +16,19 @@ namespace Bee2V.C07
 
 theorem and_of (a b : Prop) (ha : a) (hb : b) : a ∧ b := ⟨ha, hb⟩
 
+/-- `x + k - 1` as the macros W_OF_O/W_OF_B spell it -> `x + (k-1)` (one normal form for omega's atoms) -/
+theorem n64 (x : Nat) : x + 64 - 1 = x + 63 := by omega
+theorem n32 (x : Nat) : x + 32 - 1 = x + 31 := by omega
+theorem n8 (x : Nat) : x + 8 - 1 = x + 7 := by omega
+theorem n4 (x : Nat) : x + 4 - 1 = x + 3 := by omega
+
 syntax "c07_arith" : tactic
 macro_rules
   | `(tactic| c07_arith) => `(tactic|
       first
         | omega
+        | (split <;> c07_arith)
+        | (simp only [List.foldl, List.take, Nat.reduceDiv, Nat.reduceAdd, Nat.reduceMul, Nat.reduceSub, Nat.reduceMod] at *; omega)
         | (simp only [Nat.add_mul, Nat.mul_add, Nat.mul_assoc, Nat.mul_comm, Nat.mul_left_comm,
                       Nat.add_assoc, Nat.zero_add, Nat.add_zero, Nat.mul_one, Nat.one_mul] at *; omega))
 
@@ -31,7 +39,7 @@ macro_rules
       first
         | omega
         | (simp only [$top,*]; c07_arith)
-        | (simp only [$mid,*] at *; c07_arith)
+        | (simp only [$mid,*, Bee2V.C07.n64, Bee2V.C07.n32, Bee2V.C07.n8, Bee2V.C07.n4] at *; c07_arith)
         | (simp only [$all,*]; c07_arith)
         | (simp only [$all,*] at *; c07_arith))
 
